@@ -25,6 +25,51 @@ _SELFTEST = False
 _CACHE = {}
 
 
+def _family_cfg(wd, cfg, fam):
+    """the emission configuration restricted to one family of documents (same file, Families = {fam}), written into the work dir"""
+    import re
+
+    text = open(os.path.join(MODDIR, cfg)).read()
+    text, n = re.subn(r"CONSTANT Families = \{[^}]*\}", 'CONSTANT Families = {"%s"}' % fam, text)
+    if n != 1:
+        raise tlc.MachineryError("cannot restrict %s to family %s" % (cfg, fam))
+    name = cfg.replace(".cfg", "_%s.cfg" % fam)
+    with open(os.path.join(wd, name), "w") as f:
+        f.write(text)
+    return name
+
+
+def _prefetch(tier):
+    """The emission runs are independent single-worker TLC processes (one per specification / family of documents):
+    start them together.  Results land in the cache the two parts read from."""
+    from concurrent.futures import ThreadPoolExecutor
+
+    suffix = "_thorough" if tier == "thorough" else ""
+    jobs = []
+    if ("AsciiMap_mc", "AsciiMap_emit%s.cfg" % suffix) not in _CACHE or not _SELFTEST:
+        jobs.append((("AsciiMap_mc", "AsciiMap_emit%s.cfg" % suffix), dict(workers=1, coverage=True, timeout=1500), None))
+    for fam in FAMILIES:
+        key = ("Blueprint_mc", "Blueprint_emit%s.cfg" % suffix, fam)
+        if key not in _CACHE or not _SELFTEST:
+            jobs.append((key, dict(workers=1, coverage=False, timeout=3000), fam))
+
+    def one(job):
+        key, kw, fam = job
+        if key[0] == "sany":
+            return key, tlc.sany(key[1], MODDIR)
+        if fam is None:
+            return key, tlc.run(key[0], key[1], MODDIR, **kw)
+        wd = common.workdir("tlc")
+        return key, tlc.run(key[0], _family_cfg(wd, key[1], fam), MODDIR, wd=wd, **kw)
+
+    if not _SELFTEST:
+        jobs += [(("sany", m), None, None) for m in ("AsciiMap_mc", "AsciiMap_trace", "Blueprint_mc")]
+    if jobs:
+        with ThreadPoolExecutor(max_workers=len(jobs)) as ex:
+            for key, res in ex.map(one, jobs):
+                _CACHE[key] = res
+
+
 def _tlc_cached(module, cfg, **kw):
     """selftest runs the same TLC configurations once per mutant: TLC's output does not depend on armi."""
     key = (module, cfg)
@@ -173,13 +218,14 @@ RTOL = 1e-9  # compositions and dimensions are a handful of double operations aw
 FAMILIES = ("links", "comp", "stack", "pins", "core")
 # every edit of Blueprint.tla must occur in the emitted documents (non-vacuity; TLC's -coverage is not usable on this
 # module: its cost model inlines the nested operators and does not finish)
-EDITS = ("SetLink", "SetNum", "DropComp", "SwapComps", "RenameComp", "SetShape", "SetTemps", "SetIsotopics", "SetMod", "ShortMod",
+EDITS = ("SetLink", "SetNum", "AddBond", "DropComp", "SwapComps", "RenameComp", "SetShape", "SetTemps", "SetIsotopics", "SetMod", "ShortMod",
          "DupIsotopics", "SwapBlocks", "SwapList", "Shorten", "Lengthen", "Respecify", "RenameAsm", "RenameBlock", "SetHeight",
          "PlaceStack", "PlacePin", "PinMode", "PinMult", "PinIds", "PinGridName", "Place", "Unplace", "DupGrid", "ListTwice")
 
 
 def _ratmap(pairs):
-    return {n: gb.fl(v) for n, v in pairs}
+    """a nuclide listed with a zero fraction / density is a nuclide that is absent"""
+    return {n: gb.fl(v) for n, v in pairs if v[0] != 0}
 
 
 def normalise_expected_comp(c):
@@ -291,7 +337,7 @@ CAP = {"quick": 300, "thorough": 2500}  # documents built per family (all of the
 
 
 def sample_documents(docs, cap, rng):
-    """at most `cap` documents per family, spread over (last edit, verdict) classes; seeded, order-independent of TLC."""
+    """at most `cap` documents per family, spread over (last edit, verdict, kind of inconsistency) classes; seeded, order-independent of TLC."""
     out = []
     for fam in FAMILIES:
         mine = [p for p in docs if p["fam"] == fam]
@@ -300,7 +346,7 @@ def sample_documents(docs, cap, rng):
             continue
         classes = {}
         for p in sorted(mine, key=lambda p: rp.skey(p["doc"])):
-            classes.setdefault((p["act"]["n"], p["verdict"]), []).append(p)
+            classes.setdefault((p["act"]["n"], p["verdict"], p.get("why", "")), []).append(p)
         for v in classes.values():
             rng.shuffle(v)
         keys = sorted(classes)
@@ -322,10 +368,12 @@ def run_blueprints(rep, tier, seed):
         if res.violation:
             rep.violation("tlc:" + res.violation["name"], "TLC: %s violated in Blueprint" % res.violation["name"],
                           {"direction": "tlc", "trace": res.violation["trace"][:20000]})
-    eres = _tlc_cached("Blueprint_mc", "Blueprint_emit%s.cfg" % suffix, workers=1, coverage=False, timeout=3000)
-    rep.add_tlc("documents:Blueprint_emit%s.cfg" % suffix, eres)
-    _verdict_of_tlc(rep, eres, "Blueprint", ())
-    docs = [p for p in eres.prints if isinstance(p, dict) and "doc" in p]
+    docs = []
+    for fam in FAMILIES:
+        eres = _CACHE[("Blueprint_mc", "Blueprint_emit%s.cfg" % suffix, fam)]
+        rep.add_tlc("documents:Blueprint_emit%s.cfg:%s" % (suffix, fam), eres)
+        _verdict_of_tlc(rep, eres, "Blueprint", ())
+        docs += [p for p in eres.prints if isinstance(p, dict) and "doc" in p]
     acts = {p["act"]["n"] for p in docs}
     never = [e for e in EDITS if e not in acts]
     if never:
@@ -358,10 +406,8 @@ def run_blueprints(rep, tier, seed):
 def run(rep, tier, seed):
     armi_ready()
     gb.quiet()
-    if not _SELFTEST:
-        for m in ("AsciiMap_mc", "AsciiMap_trace", "Blueprint_mc"):
-            tlc.sany(m, MODDIR)
     rep.exhaustive = True
+    _prefetch(tier)
     run_asciimap(rep, tier, seed)
     run_blueprints(rep, tier, seed)
     rep.assume(
@@ -600,6 +646,28 @@ def selftest():
             c.temperatureInC = c.temperatureInC + 1.0
         return c
 
+    # -- the two seeded changes the first version of this check missed ------------------------------------------------
+    def negative_area_only_for_solids(self, area, cold):
+        import numpy as np
+
+        if not np.isnan(area) and area < 0.0 and self.containsSolidMaterial() and not self.containsVoidMaterial():
+            raise ArithmeticError("negative area")
+
+    def swapped_zero_balance_branch():
+        import inspect
+        import textwrap
+
+        from armi.materials import material
+
+        src = textwrap.dedent(inspect.getsource(material.Material.adjustMassFrac))
+        a = "massDensities[allIndicesUpdated] = (\n                1 - massFraction\n            )  # there is only one other.\n"
+        b = "            massDensities[enrichedIndex] = massFraction\n"
+        assert a in src and b in src, "adjustMassFrac changed: update the mutant"
+        src = src.replace(a + b, b.lstrip() + "            " + a)
+        ns = dict(vars(material))
+        exec(src, ns)  # noqa: S102
+        return P(material.Material, "adjustMassFrac", ns["adjustMassFrac"])
+
     CB, AB, BB = componentBlueprint.ComponentBlueprint, assemblyBlueprint.AssemblyBlueprint, blockBlueprint.BlockBlueprint
     mutants = [
         ("dimension links: `id` links resolve to another component", lambda: P(Component, "resolveLinkedDims", links_first_component)),
@@ -608,6 +676,8 @@ def selftest():
         ("negative area / volume (overlap) checks disabled", overlap_checks_off),
         ("corners-up map WRITER: second row shifted one column", lambda: P(asciimaps.AsciiMapHexFullTipsUp, "_getIJFromColRow", tips_write_shifted)),
         ("map writer drops the last entry after an inner placeholder", lambda: P(asciimaps.AsciiMap, "_removeTrailingPlaceholders", staticmethod(trailing_placeholders_kept_off_by_one))),
+        ("seed 2: negative cold area refused for solids only (fluid bond between overlapping solids)", lambda: P(Component, "_checkNegativeArea", negative_area_only_for_solids)),
+        ("seed 5: adjustMassFrac zero-balance branch, assignments swapped", swapped_zero_balance_branch),
         ("block heights applied in reversed order", lambda: P(AB, "_createBlock", create_block_heights_reversed)),
         ("xs type list shifted by one block", lambda: P(AB, "_createBlock", create_block_xs_shifted)),
         ("list-length consistency check disabled", lambda: P(AB, "_checkParamConsistency", param_consistency_off)),
